@@ -158,10 +158,11 @@ inline std::string op_to_text(const Op& o)
         case O_UTTL: s << " " << o.ttl_ms; break;
         case O_ADV: s << " " << o.dt_ns; break;
         case O_ADVTO: s << " " << o.j << " " << o.off; break;
-        case O_SCAN: s << " " << o.mode; break;
+        case O_SCAN:
+        case O_OBS: s << " " << o.mode; break;
         default: break;
     }
-        return s.str();
+    return s.str();
 }
 
 inline std::string to_text(const Case& c)
@@ -249,7 +250,8 @@ inline bool op_from_line(const std::string& line, Op& out)
         case O_UTTL: ls >> o.ttl_ms; break;
         case O_ADV: ls >> o.dt_ns; break;
         case O_ADVTO: ls >> o.j >> o.off; break;
-        case O_SCAN: ls >> o.mode; break;
+        case O_SCAN:
+        case O_OBS: ls >> o.mode; break;
         default: break;
     }
     out = std::move(o);
